@@ -38,7 +38,8 @@ impl InferenceRule for CallDataRule {
         };
 
         // Otherwise, we can infer that the type of the value is word
-        let value_bits: usize = <KnownWord as Into<usize>>::into(byte_size) * BYTE_SIZE_BITS;
+        let value_bits: usize =
+            <KnownWord as Into<usize>>::into(byte_size).saturating_mul(BYTE_SIZE_BITS);
         state.infer_for(value, TE::bytes(Some(value_bits)));
 
         // All done
